@@ -49,6 +49,80 @@ var c17Paths = []string{
 	"/",
 	"/a%2Fb/%7Euser",
 	"/trailing/",
+	// not in normal form: the URI has to go out verbatim, so nothing of this
+	// may be cleaned, resolved, collapsed or re-escaped on the way
+	"/a/./b",
+	"/a/../b",
+	"/a/b/..",
+	"/a/b/.",
+	"/connectrpc.conformance.v1.ConformanceService/./Unary",
+	"/x/../connectrpc.conformance.v1.ConformanceService/Unary",
+	"//a",
+	"/a//b",
+	"/a/",
+	"//connectrpc.conformance.v1.ConformanceService/Unary",
+	"/connectrpc.conformance.v1.ConformanceService//Unary",
+	"/connectrpc.conformance.v1.ConformanceService/Unary/",
+	"/a%2fb",
+	"/a%2Fb%2f",
+	"/%41bc/%7e",
+	"/connectrpc.conformance.v1.ConformanceService%2fUn%61ry",
+	"/a%3Fb%25",
+	"/.",
+	"/..",
+	"/a/..//./b/",
+	"",
+}
+
+// c17GenEmptyURI enables the empty URI. The property says "sends the given
+// ... path"; HTTP has no empty request target, a client must send "/" for an
+// empty path (RFC 9112 sect. 3.2.1), so "/" (plus the query, if any) is what
+// is expected - in particular not the path of the request that was replaced.
+const c17GenEmptyURI = true
+
+// c17URIShapes names the non-normal-form features of a path (for probes).
+func c17URIShapes(path string) []string {
+	var out []string
+	if path == "" {
+		return []string{"uri-empty"}
+	}
+	segs := strings.Split(path, "/")
+	for _, seg := range segs {
+		if seg == "." || seg == ".." {
+			out = append(out, "uri-dot-segments")
+			break
+		}
+	}
+	if strings.Contains(path, "//") {
+		out = append(out, "uri-double-slash")
+	}
+	if len(path) > 1 && strings.HasSuffix(path, "/") {
+		out = append(out, "uri-trailing-slash")
+	}
+	if path == "/" {
+		out = append(out, "uri-only-slash")
+	}
+	for i := 0; i+2 < len(path); i++ {
+		if path[i] != '%' {
+			continue
+		}
+		hex := path[i+1 : i+3]
+		if hex != strings.ToUpper(hex) {
+			out = append(out, "uri-lowercase-escape")
+		}
+		switch strings.ToUpper(hex) {
+		case "41", "61", "7E":
+			out = append(out, "uri-unreserved-escape")
+		}
+	}
+	sort.Strings(out)
+	var uniq []string
+	for i, v := range out {
+		if i == 0 || out[i-1] != v {
+			uniq = append(uniq, v)
+		}
+	}
+	return uniq
 }
 
 var c17InlineQueries = []string{"", "encoding=proto", "a=1&b=2", "a=1&a=2", "message=abc%2Fdef&connect=v1", "x=%41&encoding=json"}
@@ -77,6 +151,7 @@ type c17ReqCase struct {
 	Verb      string
 	Path      string
 	Inline    string
+	BareQuery bool // the URI ends in "?" with an empty query (only when Inline is empty)
 	Headers   []c17Hdr
 	RawParams []c17Hdr
 	EncParams []c17EncParam
@@ -85,8 +160,17 @@ type c17ReqCase struct {
 }
 
 func (c *c17ReqCase) uri() string {
-	if c.Inline != "" {
+	if c.Inline != "" || c.BareQuery {
 		return c.Path + "?" + c.Inline
+	}
+	return c.Path
+}
+
+// wantTarget is the request target expected on the wire when no query params
+// are added: the URI verbatim ("/" standing for an empty path).
+func (c *c17ReqCase) wantPath() string {
+	if c.Path == "" {
+		return "/"
 	}
 	return c.Path
 }
@@ -100,6 +184,9 @@ func c17GenReqCase(g *c17Gen) *c17ReqCase {
 	c.JSON = t.Bool(1, 4, "json")
 	c.Verb = c17Verbs[t.Choose(len(c17Verbs), "verb")]
 	c.Path = c17Paths[t.Choose(len(c17Paths), "path")]
+	if c.Path == "" && !c17GenEmptyURI {
+		c.Path = "/"
+	}
 	c.Inline = c17InlineQueries[t.Choose(len(c17InlineQueries), "inline-query")]
 	if strings.Contains(c.Path, "%") {
 		g.probes["path-with-percent-escape"]++
@@ -150,6 +237,7 @@ func c17GenReqCase(g *c17Gen) *c17ReqCase {
 		}
 	}
 	c.NetSeed = t.Choose(1<<20, "netseed")
+	c.BareQuery = t.Bool(1, 6, "bare-question-mark") && c.Inline == ""
 	return c
 }
 
@@ -464,13 +552,21 @@ func c17JudgeRequest(c *c17ReqCase, obs *c17ReqObs, res *simwork.Result) {
 	if obs.Method != c.Verb {
 		c17AddViolation(res, "c17/request-line", "method %q, specified %q", obs.Method, c.Verb)
 	}
-	gotPath, gotQuery, _ := strings.Cut(obs.RequestURI, "?")
-	if gotPath != c.Path {
-		c17AddViolation(res, "c17/request-line", "path %q, specified %q (request target %q, uri %q)", gotPath, c.Path, obs.RequestURI, c.uri())
+	gotPath, gotQuery, hasQuery := strings.Cut(obs.RequestURI, "?")
+	if gotPath != c.wantPath() {
+		c17AddViolation(res, "c17/request-line", "path %q, specified %q (request target %q, uri %q): the uri has to be sent verbatim", gotPath, c.Path, obs.RequestURI, c.uri())
+	} else {
+		for _, shape := range c17URIShapes(c.Path) {
+			res.Probes[shape]++
+		}
 	}
 	if len(c.RawParams) == 0 && len(c.EncParams) == 0 {
 		if gotQuery != c.Inline {
 			c17AddViolation(res, "c17/query", "query %q, specified inline %q and no query params", gotQuery, c.Inline)
+		} else if hasQuery != (c.Inline != "" || c.BareQuery) {
+			c17AddViolation(res, "c17/request-line", "request target %q, uri %q: the '?' of the uri has to be sent as given", obs.RequestURI, c.uri())
+		} else if c.BareQuery {
+			res.Probes["uri-bare-question-mark"]++
 		}
 	} else {
 		c17JudgeQuery(c, gotQuery, res)
